@@ -1002,14 +1002,50 @@ fn cmd_c15_rej(args: &[String]) {
         writeln!(out, "{}", json!({"kind":"rangenone","res": results.iter().map(|x| limbs_u64(*x)).collect::<Vec<_>>(),"raw":bytes_json(&raw)})).unwrap();
     }
     // (2) Fisher-Yates permutations against the raw stream
-    let perm_ns: Vec<u64> = if thorough { vec![1, 2, 3, 5, 16, 17, 33, 64, 255, 256, 257, 300, 700] } else { vec![1, 2, 3, 5, 16, 17, 33, 64, 257, 300] };
+    // long sessions (n > 256: draws of 3 bytes; the stream is produced in batches of ceil16(min(n, 512)), then 512 bytes:
+    // 512 = 2 mod 3, so successive batch boundaries cut the 3-byte draws at every offset)
+    let perm_ns: Vec<u64> = if thorough {
+        vec![1, 2, 3, 5, 16, 17, 33, 64, 255, 256, 257, 258, 272, 273, 300, 400, 511, 512, 513, 700, 1000, 1500, 2000, 3000, 5000]
+    } else {
+        vec![1, 2, 3, 5, 16, 17, 33, 64, 256, 257, 300, 400, 513, 700, 1000, 1500]
+    };
+    // an upper bound of the bytes the shuffle of n elements reads (2, 3, 4 bytes per draw) plus room for rejected draws
+    let stream_len = |n: u64| -> u64 {
+        let b = 2 * n.min(256) + 3 * n.saturating_sub(256).min(65280) + 4 * n.saturating_sub(65536);
+        b + b / 40 + 96
+    };
     let mut nodes = PrfNodes::new();
+    // the shuffle of n elements continues the shuffle of n0 elements: sessions of 2^16 and more draws (draws of 4 bytes
+    // above 2^16; different keys / counters shift the offset at which the 512-byte batches cut them)
+    let ext: Vec<(u64, u64, u64, u64)> = if thorough {
+        vec![(65536, 68000, 1, 1), (65536, 68000, 2, 3), (65536, 68000, 1, 4), (65536, 68000, 2, 2), (65536, 68000, 1, 2), (65536, 68000, 2, 1),
+             (65000, 66500, 1, 3), (30000, 33000, 2, 4), (5000, 9000, 1, 1), (600, 4000, 2, 3), (200, 3000, 1, 2)]
+    } else {
+        vec![(65536, 66700, 1, 1), (65536, 66700, 2, 3), (65536, 66700, 1, 4), (65300, 66000, 2, 2), (600, 2500, 1, 2)]
+    };
+    for (n0, n, kid, cid) in ext {
+        let iv = ctr_value(cid);
+        let p0 = nodes.node(iv, &json!({"k":"perm","n":n0}));
+        let p1 = nodes.node(iv, &json!({"k":"perm","n":n}));
+        let rn = nodes.node(iv, &export::type_json(&array_type(vec![stream_len(n)], UINT8)));
+        let mut e0 = SimpleEvaluator::new(None).unwrap();
+        let mut e1 = SimpleEvaluator::new(None).unwrap();
+        let mut e2 = SimpleEvaluator::new(None).unwrap();
+        let perm0 = e0.evaluate_node(p0, vec![key_value(kid)]).unwrap();
+        let perm = e1.evaluate_node(p1, vec![key_value(kid)]).unwrap();
+        let raw = e2.evaluate_node(rn, vec![key_value(kid)]).unwrap();
+        writeln!(out, "{}", json!({"kind":"permext","n0":n0,"n":n,"key":kid,"ctr":cid,
+            "perm0": perm0.to_flattened_array_u64(array_type(vec![n0], UINT64)).unwrap(),
+            "perm": perm.to_flattened_array_u64(array_type(vec![n], UINT64)).unwrap(),
+            "raw": bytes_json(&value_bytes(&raw).unwrap())})).unwrap();
+    }
     for (i, n) in perm_ns.iter().copied().enumerate() {
         // PermutationFromPRF(key, iv, n) vs PRF(key, iv, u8[N]) from another evaluator
-        for (kid, cid) in [(1u64, 1u64), (2, 3)] {
+        let pairs: Vec<(u64, u64)> = if n > 256 { vec![(1, 1), (2, 3), (1, 4), (2, 2)] } else { vec![(1, 1), (2, 3)] };
+        for (kid, cid) in pairs {
             let iv = ctr_value(cid);
             let pn = nodes.node(iv, &json!({"k":"perm","n":n}));
-            let nraw = 3 * n + 96;
+            let nraw = stream_len(n);
             let rn = nodes.node(iv, &export::type_json(&array_type(vec![nraw], UINT8)));
             let mut e1 = SimpleEvaluator::new(None).unwrap();
             let mut e2 = SimpleEvaluator::new(None).unwrap();
@@ -1020,7 +1056,7 @@ fn cmd_c15_rej(args: &[String]) {
                 "raw": bytes_json(&value_bytes(&raw).unwrap())})).unwrap();
         }
         // RandomPermutation(n) of a seeded evaluator vs the raw stream of an equally seeded PRNG
-        {
+        if n <= 700 {
             let sd = seed16(seed, 2000 + i as u64, 0);
             let c = create_context().unwrap();
             let g = c.create_graph().unwrap();
